@@ -36,10 +36,18 @@ def main():
         prop = os.path.basename(os.path.dirname(mdir))[:3]
         n = os.path.basename(mdir).replace('mut', '')
         sid = '%s-%s' % (prop, n)
-        res = None; commit = None
+        res = None; commit = None; rerun = {}
         for d, c in runs:
             f = os.path.join(d, 'tmp_mut_%s.out_mut%s.json' % (prop, n))
-            if os.path.exists(f): res = json.load(open(f)); commit = c
+            if not os.path.exists(f): continue
+            r1 = json.load(open(f))
+            if res is not None and len(r1.get('checks', {})) < 10:
+                # a later run of a few checks only (after a correction of the machinery): their verdicts replace the earlier ones
+                for pid_, v in r1.get('checks', {}).items(): res['checks'][pid_] = v; rerun[pid_] = c
+                res['flagged_by'] = sorted(pid_ for pid_, v in res['checks'].items() if v.get('violations'))
+                res['target_detected'] = prop in res['flagged_by']
+            else:
+                res = r1; commit = c
         dst = os.path.join(ROOT, 'seeded', sid)
         os.makedirs(dst, exist_ok=True)
         for name in ('patch.diff', 'demo.rs'):
@@ -65,6 +73,7 @@ def main():
                 if pid_ not in conc and pid_ not in tie: tie.append(pid_)
                 if pid_ not in flagged: flagged = sorted(flagged + [pid_])
             if p2: out['layer_p2_verdict_computed_offline'] = p2
+            if rerun: out['checks_rerun_after_a_correction'] = rerun
             if prop in p2 and not res.get('target_detected'): res['target_detected'] = True
             out.update(run_commit=commit, flagged_by=flagged, flagged_with_failing_input=conc, flagged_tie_only_no_failing_input_found=tie,
                        detected_by_target_check=res.get('target_detected'),
